@@ -548,6 +548,22 @@ def run_property(ctx, spec):
         dist['history_length'][b] = dist['history_length'].get(b, 0) + 1
         for a in h.get('anomalies', []):
             ctx.mismatch('observation anomaly: ' + a, {'origin': h.get('corpus') or h.get('seed')})
+        for v in list(kept):
+            # Task(..., relations, <custom attribute named like a read-only property>): the model has no such argument.
+            # The constructor raises AttributeError; whatever the relations were, nothing may have changed (C15).  The
+            # model's verdict on this call (it expects the task to exist) is replaced by that clause.
+            stv = h['steps'][v // 100 - 1]
+            if stv['how'].get('bad_kw') and stv['code'] == 17:
+                prev = h['steps'][v // 100 - 2]['post'] if v // 100 >= 2 else EMPTY
+                kept.remove(v)
+                if spec.pid == 'C15' and stv['post'] != prev and not stv.get('bad_kw_reported'):
+                    stv['bad_kw_reported'] = True
+                    origin = ('corpus: ' + h['corpus']) if 'corpus' in h else 'generated history, seed %s' % h.get('seed')
+                    ctx.failure('C15/NewTaskRel/custom-attribute-rejected-after-relations',
+                                'C15/NewTaskRel: the constructor raised AttributeError (custom attribute %r) and left relations changed, after %s (%s)'
+                                % (stv['how']['bad_kw'], describe_call(stv), origin),
+                                {'kind': 'ops', 'items': items_of(h, v // 100 - 1), 'origin': origin, 'call_index': v // 100 - 1,
+                                 'op': stv['op'], 'how': stv['how'], 'pre': prev, 'observed': {'post': stv['post']}})
         for v in kept:
             if v % 100 == 98:
                 ctx.infra_problem('the harness produced a call that no Python caller can make (pub_args false): %s'
